@@ -180,6 +180,23 @@ def cmp_table(facts, which, cfgname="default"):
             verdict = "unknown: %s" % u
         rows.append({"kind": "TEXT.size", "ctrl": "SIZE", "point": label, "verdict": verdict,
                      "expected": "accept" if exp else "reject", "line": fi.line, "file": fi.file})
+    # uint .size N : the value fits in N bytes (RFC 8610 3.8.1);  uint .bits B with a literal B : only bit B may be set (3.8.2)
+    for (rk, ctrl, lit, pts) in (("UINT.size", "SIZE", 2, [("0", 0, True), ("256^N-1", 65535, True), ("256^N", 65536, False)]),
+                                 ("UINT.bits", "BITS", 3, [("no bit set", 0, True), ("only bit B", 8, True), ("bit B and bit 0", 9, False),
+                                                           ("only bit 0", 1, False)])):
+        if which == "json" and ctrl == "BITS":
+            continue        # .bits is a CBOR-only control in this crate (documented; C04 lists it)
+        for (label, doc, exp) in pts:
+            docv = ("enum", "Value::Number", [json_number(doc)]) if which == "json" else ("enum", "Value::Integer", [doc])
+            src_env = {("self.json" if which == "json" else "self.cbor"): docv, "self.state.ctrl": ctrl_val(ctrl)}
+            r = Run(facts, which, cfgname, src_env, {"value": ("enum", "token::Value::UINT", [lit])})
+            try:
+                r.run(fi.node)
+                verdict = "reject" if r.errors else "accept"
+            except Unknown as u:
+                verdict = "unknown: %s" % u
+            rows.append({"kind": rk, "ctrl": ctrl, "point": label, "verdict": verdict,
+                         "expected": "accept" if exp else "reject", "line": fi.line, "file": fi.file})
     for kind in ("INT", "UINT", "FLOAT"):
         for ctrl in CTRLS:
             for (label, lit, doc) in cmp_points(kind, which):
